@@ -102,6 +102,18 @@ def mitm_setup(case):
 
 def work(args):
     idx, case, seed = args
+    if case.get("history"):
+        # the sub-cases run one after the other in THIS process with the same seed: the same ticket bytes, the same session key,
+        # the same virtual clock — presented to differently keyed servers (what one server accepted tells another server nothing)
+        allbad, last = [], None
+        for j, sub in enumerate(case["history"]):
+            sub = dict(sub, name="%s[%d]:%s" % (case["name"], j, sub["name"]))
+            _, _, _, bad, sess, err = work((idx, sub, seed))
+            if err:
+                return idx, case, seed, [], None, err
+            allbad += ["step %d of %d in one process — %s" % (j + 1, len(case["history"]), b) for b in bad]
+            last = sess
+        return idx, case, seed, allbad, last, None
     try:
         tz = case.get("tz", "UTC0")
         os.environ["TZ"] = tz
@@ -179,6 +191,13 @@ def cases(rng, quick):
         out.append(dict(name="request-byte", req_mut=("byte", k, 1 << rng.randrange(8)), expect=NO))
     for k in ([0, 3, 4, 40, 70] if quick else range(0, 100, 3)):
         out.append(dict(name="payload-trunc", req_mut=("whole-trunc", k), expect=NO))
+    # C'. the same ticket shown to differently keyed servers of one process, in every order (also: key rotation K1 -> K2 -> K1)
+    K1, K2 = dict(name="right-server", expect=OK), dict(name="other-server", server_key=b"another key", expect=NO)
+    for transport, version in (("udp", 1), ("udp", 0), ("lite", 1)):
+        for tv in (0, 1):
+            for hist in ([K1, K2], [K2, K1], [K1, K2, K1], [K1, K1, K2, K2]):
+                out.append(dict(name="same-ticket-two-servers", transport=transport, version=version, ticket_version=tv,
+                                history=[dict(h, transport=transport, version=version, ticket_version=tv) for h in hist], expect=None))
     # D. replay
     out.append(dict(name="replayed-connect", replay=True, expect=OK))
     # E. crafted responses: the server admits (its side is honest), the client must refuse
@@ -194,7 +213,8 @@ def run(ctx):
     ctx.rule = ("one real keyed session per case: honest matrix (3 encodings x pid 4/8 x key 16/32 x ticket version 0/1), ticket age "
                 "{-5,0,60,119,120,121,3600,86400} s x TZ {UTC, +9, -5}, wrong ticket/server/session keys, mismatched user id, "
                 "every (quick: sampled) truncation and single-byte mutation of ticket and request, truncated payloads, replayed CONNECT, "
-                "11 crafted responses; oracle = admission iff honest+fresh, handler pid = ticket pid, client completes iff response exact; "
+                "11 crafted responses, the same ticket shown to differently keyed servers of one process in every order, and a sample of the cases re-run in a child "
+                "interpreter started with -O (assertions compiled away); oracle = admission iff honest+fresh, handler pid = ticket pid, client completes iff response exact; "
                 "UDP sessions replayed through the Lean L1 model; distinct non-trivial = distinct cases")
     jobs = [(i, c, ctx.rng.getrandbits(32)) for i, c in enumerate(cs)]
     drv = ctx.driver("C02")
@@ -217,9 +237,49 @@ def run(ctx):
             ctx.case(key=idx, nontrivial=True, tag=case["name"],
                      sample={"case": {k: (v.hex() if isinstance(v, bytes) else v) for k, v in case.items()}, "model_lines": r.get("lines")} if idx % 53 == 0 else None)
     os.environ["TZ"] = "UTC0"; time.tzset()
+    # the interpreter's flags are part of the environment: the same verdicts with assertions compiled away (python -O)
+    import json, subprocess, sys
+    sub = [(i, c, sd) for (i, c, sd) in jobs if c.get("expect") is not None and not c.get("history")]
+    refusals = [j for j in sub if not j[1]["expect"]["server"]]
+    admits = [j for j in sub if j[1]["expect"]["server"]]
+    always = [j for j in refusals if j[1]["name"] in ("wrong-ticket-key", "wrong-server-key", "pid-mismatch", "client-wrong-session-key", "empty-ticket", "request-missing", "age")]
+    rest = [j for j in refusals if j not in always]
+    pick = always + ctx.rng.sample(rest, min(len(rest), 50 if quick else 400)) + ctx.rng.sample(admits, min(len(admits), 6 if quick else 30))
+    def enc(o):
+        return {k: ({"__bytes__": v.hex()} if isinstance(v, bytes) else list(v) if isinstance(v, tuple) else v) for k, v in o.items()}
+    payload = json.dumps([[i, enc(c), sd] for (i, c, sd) in pick])
+    import vf
+    # the tree under test first (as in lib/vf.py), then the harness
+    env = dict(os.environ, PYTHONPATH=os.pathsep.join([vf.REPO, os.path.dirname(os.path.abspath(__file__)), os.path.join(os.path.dirname(os.path.dirname(os.path.abspath(__file__))), "lib")]))
+    p = subprocess.run([sys.executable, "-O", "-B", os.path.abspath(__file__)], input=payload, capture_output=True, text=True, env=env, timeout=1200)
+    if p.returncode != 0:
+        ctx.corr_break("c05-optimised-interpreter", "the admission cases could not be run under python -O", {"stderr": p.stderr[-2000:]})
+    else:
+        res = json.loads(p.stdout.strip().splitlines()[-1])
+        for (i, c, sd), (bad, err) in zip(pick, res):
+            if err:
+                ctx.corr_break("c05-optimised-interpreter", "session crashed in the harness under python -O", {"traceback": err, "case": enc(c)})
+                continue
+            ctx.case(key=("python -O", i), nontrivial=True, tag="python-O:" + c["name"])
+            for what in bad:
+                ctx.violation("c05:python-O:%s" % c["name"], "with assertions compiled away (python -O / PYTHONOPTIMIZE): " + what,
+                              {"case": enc(c), "seed": sd, "how": "echo '[[0, case, seed]]' | /venv/bin/python -O harness/corr_C05.py   (PYTHONPATH=harness:lib)"})
     ctx.extra["l1_session_diffs"] = ndiff
     if ndiff and not ctx.violations:
         ctx.corr_break("l1-endpoint-correspondence", "real endpoints and the Lean L1 model disagree in %d sessions" % ndiff,
                        dict(first, theorems_no_longer_tied=["Nx.C05.admit_iff", "Nx.C05.reject_creates_nothing", "Nx.C05.accepted_request_is_valid"]))
     elif ndiff:
         ctx.extra["first_l1_diff"] = first
+
+
+if __name__ == "__main__":
+    # child interpreter (python -O): cases as JSON on stdin, one JSON line of [bad, error] per case on stdout
+    import json, sys
+    def dec(o):
+        return {k: (bytes.fromhex(v["__bytes__"]) if isinstance(v, dict) and "__bytes__" in v else tuple(v) if isinstance(v, list) and k in ("ticket_mut", "req_mut", "resp") else v)
+                for k, v in o.items()}
+    out = []
+    for i, c, sd in json.loads(sys.stdin.read()):
+        _, _, _, bad, _, err = work((i, dec(c), sd))
+        out.append([bad, err])
+    print(json.dumps(out))
